@@ -31,7 +31,7 @@ fn real_threads(rng: &mut Rng, threads: usize, calls: usize, init: u64) -> (Vec<
     let lock = Arc::new(essential_lock::StdLock::new((init, init)));
     let seq = Arc::new(AtomicU64::new(0));
     let log: Arc<Mutex<Vec<Rec>>> = Arc::new(Mutex::new(vec![]));
-    let durations: Vec<Vec<u64>> = (0..threads).map(|_| (0..calls).map(|_| match rng.below(4) { 0 => 0, 1 => rng.below(200), 2 => rng.below(5000), _ => rng.below(40) }).collect()).collect();
+    let durations: Vec<Vec<u64>> = (0..threads).map(|_| (0..calls).map(|_| match rng.below(4) { 0 => 0, 1 => rng.below(200), 2 => rng.below(if calls > 30 { 600 } else { 5000 }), _ => rng.below(40) }).collect()).collect();
     let handles: Vec<_> = (0..threads).map(|t| {
         let (lock, seq, log, durs) = (lock.clone(), seq.clone(), log.clone(), durations[t].clone());
         std::thread::spawn(move || {
@@ -156,7 +156,10 @@ pub fn run(a: &Args) {
     for i in 0..a.count as u64 {
         let mut rng = Rng::for_case(a.seed, 20, i);
         let threads = *rng.pick(&[2usize, 2, 3, 4, 8, 16]);
-        let calls = rng.range(1, if threads > 8 { 6 } else { 12 }) as usize;
+        // mostly short histories; one in six is long (hundreds of acquisitions of one lock: periodic behaviour such as a fair
+        // hand-off every N-th release only shows then)
+        let long = rng.chance(1, 6);
+        let calls = if long { rng.range(40, 120) as usize } else { rng.range(1, if threads > 8 { 6 } else { 12 }) as usize };
         let init = rng.below(1000);
         let (tx, rx) = std::sync::mpsc::channel();
         std::thread::spawn(move || { let mut rng = rng; let r = real_threads(&mut rng, threads, calls, init); let _ = tx.send(r); });
